@@ -14,7 +14,7 @@ CLAIMED = {
                 "T in [-50,200] C (continuous box, closed by interval arithmetic with bisection and an analytic monotonicity lemma). The float/real "
                 "gap is measured each run: ~3000 interval goals |model - get_indices| <= 1e-12 and |published - get_indices| <= 1e-12 on Rust outputs.",
         "note": "Trusted: Coq kernel + stdlib real/classical axioms + primitive floats (interval); translator tools/rs2coq.py; Spec/Published.v "
-                "transcription; binary64 rounding measured not proved; meval expression crystals not covered.",
+                "transcription; binary64 rounding measured not proved; meval expression crystals: the evaluator is not modelled; Expr crystals built from the translated formulas are compared with the model each run (validated only).",
         "technique": "Coq proof over translator-generated model (interval + analytic lemmas) + interval-checked correspondence",
         "design": "DESIGN.md §6 C01"},
 }
